@@ -550,6 +550,14 @@ func compareAt(t tensor.Tensor, want Arr, eq func(a, b interface{}) bool) string
 }
 
 // readAll reads all logical elements through At (nil entries on failure).
+// dirtyPools hands out again, and overwrites, whatever shape/stride records the pools got back.
+func dirtyPools() {
+	for _, sh := range [][]int{{7, 6}, {6, 7, 8}, {9, 8, 7, 6}, {11}, {12, 13}, {5, 4, 3, 2, 2}} {
+		x := tensor.New(tensor.Of(tensor.Int), tensor.WithShape(sh...))
+		_ = x.T()
+	}
+}
+
 // derivedProbe observes t through operations that trust its flags (contiguity, transposed bit, data
 // order) rather than its strides: the whole-tensor view, a leading-axis cut and a clone, each read
 // back element by element and through Materialize. t itself is not changed.
